@@ -22,11 +22,58 @@ pub struct Case {
     pub misuse: Option<&'static str>,
     /// free-form detail (e.g. the unknown option name)
     pub detail: String,
+    /// the items inside the module / impl block reach the macro as `macro_rules!` `$i:item` fragments
+    /// (one group with invisible delimiters each)
+    pub wrap_items: bool,
 }
 
 impl Case {
+    /// the item as the macro receives it
+    pub fn item_stream(&self) -> Result<proc_macro2::TokenStream, String> {
+        use proc_macro2::{Delimiter, Group, TokenTree};
+        use quote::ToTokens;
+        let ts = tok::parse_src(&self.item).map_err(|e| format!("HARNESS: item {e}: {}", self.item))?;
+        if !self.wrap_items {
+            return Ok(ts);
+        }
+        let mut tts: Vec<TokenTree> = ts.clone().into_iter().collect();
+        let body = match tts.pop() {
+            Some(TokenTree::Group(g)) if g.delimiter() == Delimiter::Brace => g,
+            _ => return Ok(ts),
+        };
+        // (only a body that is a sequence of items can have been assembled from `$i:item` fragments)
+        let items: Vec<proc_macro2::TokenStream> = match syn::parse2::<syn::File>(body.stream()) {
+            Ok(f) if f.attrs.is_empty() => f.items.iter().map(|i| i.to_token_stream()).collect(),
+            _ => match syn::parse2::<WrapImplItems>(body.stream()) {
+                Ok(w) => w.0,
+                Err(_) => return Ok(ts),
+            },
+        };
+        let mut inner = proc_macro2::TokenStream::new();
+        for it in items {
+            inner.extend(std::iter::once(TokenTree::Group(Group::new(Delimiter::None, it))));
+        }
+        let mut out: proc_macro2::TokenStream = tts.into_iter().collect();
+        out.extend(std::iter::once(TokenTree::Group(Group::new(Delimiter::Brace, inner))));
+        Ok(out)
+    }
+
     pub fn json(&self) -> Value {
-        json!({"engine": "E1", "macro": self.macro_name, "attr": self.attr, "item": self.item, "misuse": self.misuse, "detail": self.detail})
+        json!({"engine": "E1", "macro": self.macro_name, "attr": self.attr, "item": self.item, "misuse": self.misuse, "detail": self.detail, "wrap_items": self.wrap_items})
+    }
+}
+
+/// the items of an impl block's body (fns without `self`, consts, types), each re-printed on its own
+struct WrapImplItems(Vec<proc_macro2::TokenStream>);
+
+impl syn::parse::Parse for WrapImplItems {
+    fn parse(input: syn::parse::ParseStream) -> syn::Result<Self> {
+        use quote::ToTokens;
+        let mut v = vec![];
+        while !input.is_empty() {
+            v.push(input.parse::<syn::ImplItem>()?.to_token_stream());
+        }
+        Ok(WrapImplItems(v))
     }
 }
 
@@ -65,7 +112,8 @@ pub enum Verdict {
 
 pub fn check(case: &Case, strict_known: bool) -> Result<Verdict, String> {
     let _ = strict_known;
-    let exp = e1::expand_src(&case.macro_name, &case.attr, &case.item).map_err(|e| format!("HARNESS: {e}"))?;
+    let attr_ts = tok::parse_src(&case.attr).map_err(|e| format!("HARNESS: attr {e}: {}", case.attr))?;
+    let exp = e1::expand_ts(&case.macro_name, attr_ts, case.item_stream()?);
     let ts = match exp {
         Expansion::Panic(msg) => return Err(format!("macro panicked: {msg}")),
         Expansion::Tokens(ts) => ts,
@@ -372,7 +420,7 @@ fn gen_misuse(t: &mut Tape) -> Case {
             (head.to_string(), "trait Tr { fn m(&self); }".to_string())
         }
     };
-    Case { macro_name, attr, item, misuse: Some(cat), detail }
+    Case { macro_name, attr, item, misuse: Some(cat), detail, wrap_items: false }
 }
 
 /// identifier-valued options given a keyword (path keywords are identifiers to some parsers): whatever the macro makes of them,
@@ -390,7 +438,7 @@ fn gen_keyword_value(t: &mut Tape) -> Case {
         3 => (format!("Foo, mock_api = {kw}"), "fn foo(d: &impl Sized) {}".to_string()),
         _ => (format!("mock_api = {kw}"), "trait Tr { fn m(&self); }".to_string()),
     };
-    Case { macro_name, attr, item, misuse: None, detail: String::new() }
+    Case { macro_name, attr, item, misuse: None, detail: String::new(), wrap_items: false }
 }
 
 pub fn gen_case(t: &mut Tape, known: &Known) -> Case {
@@ -416,7 +464,8 @@ pub fn gen_case(t: &mut Tape, known: &Known) -> Case {
         }
         _ => gen_attr_any(t),
     };
-    Case { macro_name, attr, item, misuse: None, detail: String::new() }
+    let wrap_items = (item.contains("impl TraitImpl") || item.contains(" mod ")) && t.chance(1, 6);
+    Case { macro_name, attr, item, misuse: None, detail: String::new(), wrap_items }
 }
 
 pub fn one_with(ctx: &mut Ctx, tape: &[u32], known: &Known) -> Result<(), Fail> {
@@ -489,7 +538,7 @@ pub fn run(ctx: &mut Ctx) {
 
 pub fn replay(ctx: &mut Ctx, v: &Value) {
     let misuse = v.get("misuse").and_then(|m| m.as_str()).and_then(|m| MISUSES.iter().find(|x| **x == m).copied());
-    let case = Case { macro_name: super::s(v, "macro"), attr: super::s(v, "attr"), item: super::s(v, "item"), misuse, detail: super::s(v, "detail") };
+    let case = Case { macro_name: super::s(v, "macro"), attr: super::s(v, "attr"), item: super::s(v, "item"), misuse, detail: super::s(v, "detail"), wrap_items: v.get("wrap_items").and_then(|w| w.as_bool()).unwrap_or(false) };
     ctx.count_eval();
     match check(&case, true) {
         Ok(_) => {}
